@@ -28,7 +28,7 @@ func main() {
 	kit.Main(kit.Prop{
 		ID:    "C06",
 		Level: "fault_enumeration",
-		Rule: "each evaluation is one assembly; inside it every selected (assembly, cut time t) pair is checked: the assembly is a PRNG-drawn memory hierarchy (caches, ROB, ideal/banked/DRAM memory, " +
+		Rule: "each evaluation is one assembly; inside it every selected (assembly, cut time t) pair is checked: the assembly is a PRNG-drawn memory hierarchy (caches, ROB, ideal/banked/DRAM memory) or translation stack (address translator, TLBs, MMU cache, GMMU, MMU, page table) with " +
 			"serialisable scripted drivers); cut points are distinct event times of the uninterrupted reference run (first, last, one between two events, one beyond the end and PRNG-sampled ones in quick; " +
 			"every one up to a cap in thorough). Run-to-t + save (one process), rebuild + load + run (a fresh process per cut) must reproduce the reference's remaining BeforeEvent trace and every entity's " +
 			"final checkpoint payload, engine time and ID counter. A cut is non-trivial when messages sit in port buffers or requests are outstanding at t; distinct_nontrivial counts distinct (configuration, t) pairs",
@@ -55,8 +55,16 @@ func run(b kit.Batch, r *kit.R) {
 	var p params
 	b.P(&p)
 	r.ForEach(b.N, func(c *kit.Case) {
+		if c.Rng.Intn(3) == 0 {
+			cfg := sim.RandomVMCfg(c.Rng, p.NumReqs)
+			c.Desc(cfg)
+			r.Count("assemblies/translation-stack", 1)
+			CheckCuts(c, "vm", cfg, p, p.NumReqs)
+			return
+		}
 		cfg := sim.RandomStackCfg(c.Rng, sim.GenOpts{NumReqs: p.NumReqs, AllowDRAM: true, AllowBanked: true, MaxDrivers: 2})
 		c.Desc(cfg)
+		r.Count("assemblies/memory-hierarchy", 1)
 		CheckCuts(c, "stack", cfg, p, p.NumReqs)
 	})
 }
